@@ -141,7 +141,9 @@ def run_driver(requests):
     p = subprocess.run([DRIVER], input=data, capture_output=True, text=True)
     if p.returncode != 0:
         raise InfraError(f'driver exited with {p.returncode}: {p.stderr[:500]}')
-    lines = p.stdout.splitlines()
+    lines = p.stdout.split('\n')
+    if lines and lines[-1] == '':
+        lines.pop()
     if len(lines) != len(requests):
         raise InfraError(f'driver returned {len(lines)} replies for {len(requests)} requests')
     out = []
